@@ -767,18 +767,28 @@ def step (st : St) (args : List String) : St × String :=
     (st, "done\tdone")
   -- spec of the worker steps: they complete (a panic or a hang is a violation with this history as replay)
   | ["rmrun", w] =>
+    -- the asyncRemove skeleton (one finishing round) must end in the class of the real worker run
     ({ st with removing := st.removing.filter (· != w), gone := st.gone ++ [w],
-               cur := if st.cur = some w then none else st.cur }, "ok\tok")
+               cur := if st.cur = some w then none else st.cur }, withSkel "ok\tok" Model.ApiFollow.removeClass)
   | ["impstep", w] =>
     -- spec of the worker step: the harness first delivers the node's tip to the follower (asyncImport refuses a
     -- batch with ErrImportingContinuable while the follower is on another branch than the node), then one
     -- batch runs and, on these short chains, finishes; a panic, a hang or an error is a violation
-    ({ st with importing := st.importing.filter (· != w) }, "fin\tfin")
+    -- the asyncImport skeleton, what it scans answered from the node's chain and the keystore view
+    -- (MW.Model.Import.plan / filterTxForImporting), must end without error as the real batch does
+    let sk := Model.ApiFollow.importClass st.led.node st.led.own w
+    ({ st with importing := st.importing.filter (· != w) }, withSkel "fin\tfin" (if sk = "ok" then "fin" else sk))
   | ["cur"] => (st, st.cur.getD "-")
   | "x" :: rest =>
     -- robust mode: only "no panic" is observed; wallet selection side effects are still tracked
     match rest with
     | "call" :: m :: a => (doCall st m a |> fun s => { s with last := st.last }, "done\tdone")
+    -- node-side ops and address issue keep the node / keystore view current (the worker skeletons are answered from it)
+    | ["tx", t, u, ins, outs] => ({ st with led := (Led.step st.led ["tx", t, u, ins, scaleOuts outs]).1 }, "done\tdone")
+    | "block" :: _ | "submit" :: _ | ["detach"] | "params" :: _ => ({ st with led := (Led.step st.led rest).1 }, "done\tdone")
+    | ["addr", w, a, cl] =>
+      let st1 := useEffect st w
+      ({ st1 with led := { st1.led with own := (Led.step st1.led ["addr", w, a, cl]).1.own } }, "done\tdone")
     | op :: w :: _ => (if usesWallet op then useEffect st w else st, "done\tdone")
     | ["restart"] => ({ st with cur := none }, "done\tdone")
     | _ => (st, "done\tdone")
